@@ -1,5 +1,6 @@
 import IxpeVerif.Model.Determinism
 import IxpeVerif.Gen.RngSites
+import IxpeVerif.Model.Cache
 /-!
 # C11 — a seed determines the output, independent of process history (core Lean only)
 
@@ -101,3 +102,72 @@ theorem du_streams_distinct_xpphotonlist (seed d1 d2 : Nat) (h1 : 1 ≤ d1) (h2 
 theorem du_seed_translated : (Gen.duSeedTranslated_xpobssim && Gen.duSeedTranslated_xpcalib && Gen.duSeedTranslated_xpphotonlist) = true := by decide
 
 end Det
+
+/-! ## Caches and carried state
+
+The effect model above treats the response cache as valid (`CacheOk`).  This part says *when* a cache is valid, and audits every
+place of the package where a value survives from one call to the next (`Gen.cacheSites`, regenerated by `translator/cachesites.py`:
+`lru_cache`-style decorators, lookup-or-compute on a container that outlives the call — with the text of the key —, options written
+inside a loop over items, module-level containers mutated at run time). -/
+
+namespace Cache
+variable {A B K : Type} [DecidableEq K]
+
+theorem honest_after (f : A → B) (key : A → K) : ∀ hist, Honest f key (after f key hist)
+  | [] => by intro e he; cases he
+  | a :: hist => by
+    have ih := honest_after f key hist
+    simp only [after, call]
+    cases h : lookup (after f key hist) (key a) with
+    | some b => simpa using ih
+    | none =>
+      intro e he
+      simp only [List.mem_cons] at he
+      rcases he with rfl | he
+      · exact ⟨a, rfl⟩
+      · exact ih e he
+
+theorem lookup_honest {f : A → B} {key : A → K} {tbl : List (K × B)} (h : Honest f key tbl) {k : K} {b : B}
+    (hl : lookup tbl k = some b) : ∃ x, key x = k ∧ f x = b := by
+  unfold lookup at hl
+  cases hf : tbl.find? (fun e => e.1 = k) with
+  | none => simp [hf] at hl
+  | some e =>
+    simp only [hf, Option.map_some, Option.some.injEq] at hl
+    have hmem := List.mem_of_find?_eq_some hf
+    have hk := List.find?_some hf
+    obtain ⟨x, rfl⟩ := h e hmem
+    exact ⟨x, by simpa using hk, hl⟩
+
+/-- **a cache is invisible when the key determines the result**: after any history of calls, a call returns `f a` -/
+theorem memo_transparent (f : A → B) (key : A → K) (hkey : ∀ a b, key a = key b → f a = f b) (hist : List A) (a : A) :
+    (call f key (after f key hist) a).1 = f a := by
+  unfold call
+  cases h : lookup (after f key hist) (key a) with
+  | none => rfl
+  | some b =>
+    obtain ⟨x, hx, hb⟩ := lookup_honest (honest_after f key hist) h
+    simp only
+    rw [← hb]
+    exact hkey x a hx
+
+/-- **and only then**: if two arguments share a key but not the result, the history "call with the first" makes the call with the second
+return the wrong (stale) value -/
+theorem memo_stale (f : A → B) (key : A → K) (a b : A) (hk : key a = key b) (hf : f a ≠ f b) :
+    (call f key (after f key [a]) b).1 ≠ f b := by
+  simp only [after, call, lookup, List.find?_nil, Option.map_none, List.find?_cons, hk, decide_true, Option.map_some]
+  exact hf
+
+theorem transparent_iff (f : A → B) (key : A → K) :
+    (∀ hist a, (call f key (after f key hist) a).1 = f a) ↔ (∀ a b, key a = key b → f a = f b) := by
+  constructor
+  · intro h a b hk
+    exact Classical.byContradiction fun hf => memo_stale f key a b hk hf (h [a] b)
+  · intro h hist a; exact memo_transparent f key h hist a
+
+/-- a cache keyed by what the computation actually reads (the resolved file path, for the response loaders) is invisible -/
+theorem keyed_by_input_transparent {P : Type} [DecidableEq P] (path : A → P) (load : P → B) (hist : List A) (a : A) :
+    (call (load ∘ path) path (after (load ∘ path) path hist) a).1 = load (path a) :=
+  memo_transparent _ _ (fun _ _ h => congrArg load h) hist a
+
+end Cache
